@@ -195,7 +195,10 @@ def check_jacobian(H, name, build, key, rels_extra=(), timeout=None, use_cert=Tr
                     else:
                         Jfd[:, jj] = ((outs[0] - outs[1]) / (2 * h)).reshape(-1)
                 err = (Jag - Jfd).abs().max().item()
-                bad = err > 1e-4 * (1 + Jfd.abs().max().item()) or pad > 1e-12
+                # central differences carry a round-off error of about eps * |values| / h: with huge coordinates in the solver's model
+                # (e.g. a translation of 1e129) they cannot confirm anything, and the candidate stays inconclusive rather than becoming an alarm
+                mag = max([1.0] + [t.detach().abs().max().item() for t in tens if t.numel()] + [o_.abs().max().item() for o_ in outs if o_.numel()])
+                bad = err > 1e-4 * (1 + Jfd.abs().max().item()) + 1e-8 * mag or pad > 1e-12 * mag
                 return bad, 'autograd Jacobian vs central differences (left-perturbation convention): max err %.3g, padding slot %.3g at %s' % (
                     err, pad, {k: round(vv, 5) for k, vv in list(env2.items())[:14]})
             return replay
